@@ -170,9 +170,20 @@ func runOpenCase(oc *OpenCase) vh.Outcome {
 			return o
 		}
 		if !oc.RewriteHost && bc.Request.Host != r.Host {
-			// (with --rewrite-websocket-host the Host header deliberately carries the client's host; the peer is still the backend)
 			o.Err = fmt.Errorf("open with body %q: handshake went to Host %q", body, bc.Request.Host)
 			return o
+		}
+		if oc.RewriteHost {
+			// with --rewrite-websocket-host the Host field deliberately carries the host the client addressed its open
+			// request to; the URL in the body still contributes only path and query (the peer is the backend either way)
+			addressed := oc.Host
+			if addressed == "" {
+				addressed = "client.example"
+			}
+			if bc.Request.Host != addressed {
+				o.Err = fmt.Errorf("open with body %q sent to host %q (--rewrite-websocket-host): the handshake carried Host %q; the supplied URL may contribute only path and query", body, addressed, bc.Request.Host)
+				return o
+			}
 		}
 	}
 	return o
